@@ -68,3 +68,31 @@ fn decoder_total() {
         }
     }
 }
+
+/// C06: changing, adding, removing or reordering any transaction after signing makes the block unacceptable
+#[tokio::test]
+#[serial_test::serial]
+async fn stripped_transaction_is_rejected() {
+    let mut t = TestManager::default();
+    t.initialize(100, 200_000_000_000_000).await;
+    let (block1_hash, ts) = { let bc = t.blockchain_lock.read().await; let b = bc.get_latest_block().unwrap(); (b.hash, b.timestamp) };
+    // an honest block: golden ticket + two zero-fee payments
+    let mut block2 = t.create_block(block1_hash, ts + 120000, 2, 1000, 0, true).await;
+    block2.generate().unwrap();
+    let signed_hash = block2.hash;
+    let signed_root = block2.merkle_root;
+    assert!(signed_root != [0; 32]);
+    // in transit, somebody strips one of the payments; header, signature and hash are untouched
+    let idx = block2.transactions.iter().position(|tx| tx.transaction_type == TransactionType::Normal).expect("a normal tx");
+    block2.transactions.remove(idx);
+    let wire = block2.serialize_for_net(BlockType::Full);
+    let mut received = Block::deserialize_from_net(&wire).unwrap();
+    received.generate().unwrap();
+    assert_eq!(received.hash, signed_hash, "same identity");
+    assert!(received.generate_merkle_root(false, false) != signed_root, "the carried transactions no longer match the signed commitment");
+    let res = t.add_block(received).await;
+    let tip = { t.blockchain_lock.read().await.get_latest_block_hash() };
+    if tip == signed_hash {
+        witness(format!("a block whose transaction list was altered after signing (one payment stripped; merkle_root in the signed header no longer matches the transactions carried) was accepted under the original hash: add_block → {:?}", res));
+    }
+}
